@@ -132,6 +132,14 @@ class Isobaric(Canonical[MoveType, CriteriaType], Generic[MoveType, CriteriaType
 
         super().validate_simulation()
 
+    def save_state(self) -> None:
+        """Save the current state of the context, notifying the moves first if the
+        accepted move changed the cell."""
+        if (self.atoms.cell.array != self.context.last_cell.array).any():
+            self.notify_moves("on_cell_changed", self.atoms.cell)
+
+        super().save_state()
+
     def revert_state(self) -> None:
         """
         Revert to the previously saved state and undo the last move.
